@@ -112,8 +112,12 @@ def execute(scn, devs, bindir, scratch, expect=None):
             tr, tw, cr, cw = hi
             os.write(tw, b"t" * (n - 1))
             env["MAKEFLAGS"] = " -j --jobserver-auth=%d,%d --jobserver-fds=%d,%d" % (tr, tw, tr, tw)
-            env["REDO_CHEATFDS"] = "%d,%d" % (cr, cw)
-            pass_fds = (tr, tw, cr, cw)
+            if scn.get("no_cheatfds"):
+                # a real GNU make parent: it knows nothing about redo's second pipe
+                pass_fds = (tr, tw)
+            else:
+                env["REDO_CHEATFDS"] = "%d,%d" % (cr, cw)
+                pass_fds = (tr, tw, cr, cw)
             js = {"n": n, "fds": (tr, tw, cr, cw)}
             if scn.get("make_player"):
                 player = MakePlayer(tr, tw, int(scn["make_player"]))
